@@ -81,3 +81,34 @@ META = dict(
     not_applicable=["bounded in the number of tokens (<=4), stop words (<=2) and ngram_range (<=3), complete in the strings; the document-term matrices and "
                     "vocabulary_ of the full vectorizers: bounded stand-in against scikit-learn"],
 )
+
+
+# the two vectorizer classes only re-route _word_ngrams to the mixin (everything else is inherited from scikit-learn)
+for _cls in ("TraceableCountVectorizer", "TraceableTfidfVectorizer"):
+    def _mk(cls):
+        class Delegates(Contract):
+            """%s._word_ngrams is NGramsMixin._word_ngrams on the same tokens and stop words (MRO: the scikit-learn base would win otherwise)"""
+            variants = [(2, None), (3, 1)]
+
+            def setup(self, E, v):
+                L, S = v
+                tokens = [E.str("tok%d" % i) for i in range(L)]
+                stop = None if S is None else [E.str("stop%d" % i) for i in range(S)]
+                s = E.new_obj(F + "::" + cls, dict(ngram_range=(1, 2)))
+                return dict(self=s, tokens=tokens, stop_words=stop)
+
+            def ensures(self, E, a, res, old):
+                mixin = E.repo.lookup(F + "::NGramsMixin._word_ngrams")
+                from pyvc.engine import Closure
+                exp = E.call_closure(Closure(mixin, None, a.self), [], dict(tokens=a.tokens, stop_words=a.stop_words), None)
+                ok = isinstance(res, list) and isinstance(exp, list) and len(res) == len(exp)
+                out = {"same_number_of_ngrams_as_the_mixin": z3.BoolVal(ok)}
+                if ok:
+                    out["same_ngrams_as_the_mixin"] = z3.And(*[
+                        z3.And(z3.BoolVal(isinstance(x, tuple) and isinstance(y, tuple) and len(x) == len(y)), *[z(u) == z(w) for u, w in zip(x, y)])
+                        for x, y in zip(res, exp)]) if res else z3.BoolVal(True)
+                return out
+        Delegates.__name__ = "Delegates_" + cls
+        Delegates.__doc__ = Delegates.__doc__ % cls
+        return contract(F + "::" + cls + "._word_ngrams", "C14")(Delegates)
+    _mk(_cls)
